@@ -516,3 +516,195 @@ class FindResult(Contract):
 
 
 CONTRACTS.append(FindResult())
+
+
+# ============================================================================= _SearchIndexer._find_expression
+# key = <base>[.<operator>]; the base is an opaque dotted key without '$', the operator suffix is concrete (one VC family each).
+
+
+class SKeyE(Sym):
+    """a filter key: opaque base (no '$') plus an optional concrete operator suffix"""
+
+    def __init__(self, base, op):
+        self.base, self.op = base, op
+
+    def sym_contains(self, ex, x):
+        if x == "$":
+            return self.op is not None
+        raise Unsupported("substring test on a filter key")
+
+    def sym_getattr(self, ex, name):
+        if name == "count":
+            return NativeStub(lambda s: (1 if self.op is not None else 0) if s == "$" else (_ for _ in ()).throw(Unsupported("count")), "str.count")
+        if name == "split":
+            def split(sep):
+                if sep != ".":
+                    raise Unsupported("split separator")
+                return SNodes(self.base, self.op)
+            return NativeStub(split, "str.split")
+        raise Unsupported(f"key.{name}")
+
+    def sym_isinstance(self, ex, cls):
+        return cls in (str, object)
+
+
+class SNodes(Sym):
+    def __init__(self, base, op):
+        self.base, self.op = base, op
+
+    def sym_getitem(self, ex, k):
+        if k == -1 and self.op is not None:
+            return self.op
+        if isinstance(k, slice) and k.start is None and k.stop == -1 and k.step is None and self.op is not None:
+            return SNodes(self.base, None)
+        raise Unsupported("indexing of the key components")
+
+
+class FindExprCtx(FindResultCtx):
+    def str_join(self, interp, sep, parts):
+        if sep == "." and isinstance(parts, SNodes) and parts.op is None:
+            return SKeyE(parts.base, None)
+        raise Unsupported("str.join shape")
+
+    def instantiate(self, interp, rc, args, kw):
+        if rc.name == "_float" and len(args) == 1 and isinstance(args[0], SJ):
+            return SJ(J.F(num(args[0].e)))
+        return NotImplemented
+
+    def builtin_hook(self, interp, f, args, kw):
+        if f is int and len(args) == 1 and isinstance(args[0], SJ):
+            # int(v): for an integral v the integer k with k == v (the only way _find_expression uses it); truncation otherwise
+            ex = interp.ex
+            k = z3.Int(ex.fresh_name("int"))
+            r = num(args[0].e)
+            ex.assume(z3.If(integral(r), z3.ToReal(k) == r, k == z3.ToInt(r)))
+            return SJ(J.I(k))
+        return super().builtin_hook(interp, f, args, kw)
+
+    def comprehension(self, interp, node, frame):
+        import ast
+        if isinstance(node, ast.SetComp) and ast.unparse(node) == "{elem for elems in index.values() for elem in elems}":
+            ix = interp.lookup(frame, "index")
+            if isinstance(ix, SymIndex):
+                return SymSet(lambda x: EX_idx(0, ix.n, lambda j: ix.ids(j, x)))
+        return NotImplemented
+
+
+def integral(r):
+    """r is an integer value (z3's is_int mixes badly with datatypes: stated with an explicit integer witness)"""
+    k = z3.Int("k!int")
+    return z3.Exists([k], r == z3.ToReal(k))
+
+
+def _sreal_getattr(self, ex, name):
+    if name == "is_integer":
+        return NativeStub(lambda: SBool(integral(self.e)), "float.is_integer")
+    raise Unsupported(f"float.{name}")
+
+
+SReal.sym_getattr = _sreal_getattr
+
+KeyB = z3.DeclareSort("KeyB")           # an opaque dotted key (base)
+DEFD = z3.Function("DEFD", Id, KeyB, z3.BoolSort())      # document x has a value under the dotted key
+VALOF = z3.Function("VALOF", Id, KeyB, J)                # ... and this is it (hashable form)
+
+
+class FindExpression(Contract):
+    target = f"{M}._SearchIndexer._find_expression"
+    properties = ("C06",)
+    ctx_class = FindExprCtx
+    assumptions = ("keys are well formed: the base contains no '$'; str.split / '.'.join on keys by the component abstraction",
+                   "build_index contract: index of base key b has defined(x) = DEFD(x, b), val(x) = VALOF(x, b), buckets by the typed key equivalence")
+
+    def cases(self):
+        cs = [{"op": None}]
+        cs += [{"op": o} for o in ("$eq", "$ne", "$lt", "$gte", "$in", "$regex", "$type", "$near")]
+        cs += [{"op": "$exists", "arg": True}, {"op": "$exists", "arg": False}, {"op": "$exists", "arg": "bad"}, {"op": "$foo"}, {"op": "nodollar.$"}]
+        return cs
+
+    def setup(self, interp, case):
+        ex, ctx = interp.ex, interp.ctx
+        g = ctx.ghost
+        rp = interp.repo
+        rp.load(M)
+        from pyvc.interp import Obj
+        selfobj = Obj(rp.classes[f"{M}._SearchIndexer"])
+        selfobj.tag = "indexer"
+        base = z3.Const("basekey", KeyB)
+        g.update({"self": selfobj, "base": base, "built": [], "fwio": []})
+        for a in tup_axioms():
+            ex.assume(a)
+
+        def build_index(interp_, b):
+            k = b["key"]
+            ok = b["self"] is selfobj and isinstance(k, SKeyE) and k.op is None and z3.eq(k.base, base)
+            ex.oblige(self.oname("call[build_index]:index_is_built_for_the_base_key_without_the_operator_suffix"), z3.BoolVal(bool(ok)))
+            ix = SymIndex(ex, "b%d" % len(g["built"]))
+            for a in ix.wf():
+                ex.assume(a)
+            ex.assume(FA_id(lambda x: z3.And(ix.defined(x) == z3.And(INSELF(x), DEFD(x, base)), ix.val(x) == VALOF(x, base))))
+            g["built"].append(ix)
+            return ix
+        ctx.callee_contracts[f"{M}._SearchIndexer.build_index"] = build_index
+
+        def fwio(interp_, b):
+            ix, op, arg = b["index"], b["op"], b["argument"]
+            ok = isinstance(ix, SymIndex) and op == case["op"] and arg is g["value"]
+            ex.oblige(self.oname("call[_find_with_index_operator]:the_operator_and_argument_of_the_key_on_that_index"), z3.BoolVal(bool(ok)))
+            g["fwio"].append(ix)
+            f = z3.Function(ex.fresh_name("opsat"), J, z3.BoolSort())       # OPSPEC(op, . , arg): fixed by the callee's contract
+            g["opsat"] = f
+            return SymSet(lambda x: z3.And(ix.defined(x), f(ix.val(x))))
+        ctx.callee_contracts[f"{M}._find_with_index_operator"] = fwio
+        op = case["op"]
+        if op == "$exists":
+            value = case["arg"]
+        else:
+            value = SJ(z3.Const("value", J))
+        g["value"] = value
+        key = SKeyE(base, op) if op != "nodollar.$" else SKeyE(base, "nodollar")
+        if op == "nodollar.$":
+            key.sym_contains = lambda ex_, x: True
+        return [selfobj, key, value], {}, {"base": base}
+
+    def post(self, interp, case, pre, outcome):
+        ex, g = interp.ex, interp.ctx.ghost
+        op, base = case["op"], pre["base"]
+        if op in ("$foo", "nodollar.$"):
+            ex.oblige(self.oname("raises:KeyError_for_an_unknown_or_misplaced_operator"), z3.BoolVal(outcome[0] == "raise" and isinstance(outcome[1], KeyError)), note=repr(outcome[1]))
+            return
+        if op == "$exists" and case["arg"] == "bad":
+            ex.oblige(self.oname("raises:ValueError_for_a_non_boolean_$exists_argument"), z3.BoolVal(outcome[0] == "raise" and isinstance(outcome[1], ValueError)))
+            return
+        if outcome[0] == "raise":
+            ex.oblige(self.oname("raises:nothing_for_a_well_formed_expression"), False, note=repr(outcome[1]))
+            return
+        r = outcome[1]
+        if not isinstance(r, (SymSet, set)):
+            ex.oblige(self.oname("ensures:result_is_a_set"), False)
+            return
+        r = as_symset(r)
+        has = lambda x: z3.And(INSELF(x), DEFD(x, base))
+        if op is None:
+            v = g["value"].e
+            # two arithmetic lemmas, proved on their own (empty context, arbitrary values w, u) and then used as hypotheses:
+            #   a numeric value that is not integral is a float;  only a float equals a non-integral number
+            from pyvc.core import Obligation
+            w, u = z3.Const("lemma_w", J), z3.Const("lemma_u", J)
+            l1 = lambda t: z3.Implies(z3.And(is_num(t), z3.Not(integral(num(t)))), J.is_F(t))
+            l2 = lambda t, a: z3.Implies(z3.And(is_num(a), z3.Not(integral(num(a))), pyeq(t, a)), J.is_F(t))
+            ex.obl.append(Obligation(self.oname("lemma:a_non_integral_number_is_a_float"), [], l1(w), "", "prove"))
+            ex.obl.append(Obligation(self.oname("lemma:only_a_float_equals_a_non_integral_number"), [], l2(w, u), "", "prove"))
+            ex.assume(l1(v))
+            ex.assume(FA_id(lambda x: l2(VALOF(x, base), v)))
+            ex.oblige(self.oname("ensures:implicit_equality_selects_exactly_the_documents_whose_value_equals_the_argument_(int/float_alike)"),
+                      r.eq_spec(lambda x: z3.And(has(x), pyeq(VALOF(x, base), v))))
+        elif op == "$exists":
+            ex.oblige(self.oname("ensures:$exists_tests_definedness"), r.eq_spec(lambda x: has(x) if case["arg"] else z3.And(INSELF(x), z3.Not(DEFD(x, base)))))
+        else:
+            f = g.get("opsat")
+            ex.oblige(self.oname("ensures:operator_expressions_are_answered_by_the_index_operator_on_the_base_key"),
+                      r.eq_spec(lambda x: z3.And(has(x), f(VALOF(x, base)))) if f is not None else z3.BoolVal(False))
+
+
+CONTRACTS.append(FindExpression())
